@@ -219,6 +219,9 @@ func (s *SubscriptionManager[C, T]) Subscribe(clientID C, topic T) bool {
 
 			// check if the client has reached the max number of subscriptions
 			if s.maxTopicSubscriptionsPerClient != 0 && subscribedTopics.Size() >= s.maxTopicSubscriptionsPerClient {
+				// the new subscription was not added to the global topic count yet, so it must not be part of the cleanup
+				subscribedTopics.Delete(topic)
+
 				// cleanup the client
 				_, removedTopics, unsubscribedTopics = s.cleanupClientWithoutLocking(clientID)
 				clientDropped = true
